@@ -234,8 +234,15 @@ def ev(n, ctx):
     if k == "UnaryExprOrTypeTraitExpr" and n.get("name") == "sizeof":
         t = (n.get("argType") or {})
         q = t.get("desugaredQualType") or t.get("qualType")
+        if not q and ks:
+            # sizeof expression: the type of the operand as written (arrays do not decay here)
+            q = ir.qtype(ks[0])
         if q in SIZEOF:
             return SIZEOF[q]
+        import re as _re
+        m = _re.match(r"^(?:const\s+)?([A-Za-z_][A-Za-z0-9_ :]*?)\s*\[(\d+)\]$", q or "")
+        if m and m.group(1).replace("const ", "").strip() in SIZEOF:
+            return SIZEOF[m.group(1).replace("const ", "").strip()] * int(m.group(2))
         raise Unknown("sizeof(%s)" % q)
     if k == "UnaryOperator":
         op = n.get("opcode")
